@@ -274,6 +274,9 @@ func (s *Server) Start(ctx context.Context) error {
 		s.cb = newChannelBroker(s.cfg.logger)
 	}
 	s.cb.validateSecurity = s.validateSecurity
+	s.cb.mu.Lock()
+	s.cb.closed = false
+	s.cb.mu.Unlock()
 
 	go s.acceptAndRegister(ctx, s.l)
 	go s.monitorConnections(ctx)
